@@ -24,7 +24,7 @@ pub fn def() -> PropDef {
         thorough_cases: 3_200_000,
         rule: "case = one operation of the internal tower on generated elements: Fq4 {add, sub, neg, double, triple, mul, mul_1 (b.c0=0), squared, inverse, the eight internal Frobenius codes, scale, scale_fq, mul_by_nonresidue, unitary_inverse, to_slice}, Fq12 {add, sub, neg, double, triple, mul, mul_015 (sparse right operand), squared, inverse, frobenius 1/2/3/6, scale, mul_by_nonresidue, pow(u128) with exponents {0,1,2,9,SM9_S,SM9_A2,SM9_A3,2^k,uniform}, pow(Fr), to_slice}, the four-term interleaved sum of products with its carry class computed in the model, both final exponentiations (vs. plain x^((q^12-1)/r)), and both Miller loops; elements from coefficient vectors: uniform, sparse (1-2 non-zero), subfield (Fq, Fq2, Fq4, Fq6), unitary (x^(q^6-1) image) and zero, coefficients from the limb-boundary classes; non-trivial = element not in {0,1} and not a pairing value; distinct by (operation, operands)",
         required: crate::runner::req(&[
-            "kind:fq4", "kind:fq12", "kind:sop4", "kind:pow", "kind:finalexp", "kind:miller", "elem:uniform", "elem:sparse", "elem:subfield", "elem:unitary", "elem:zero", "sop4:carry0", "sop4:carry1",
+            "kind:fq4", "kind:fq12", "kind:sop4", "kind:pow", "kind:finalexp", "kind:miller", "elem:uniform", "elem:sparse", "elem:subfield", "elem:unitary", "elem:zero", "elem:const-plus-sparse", "sop4:carry0", "sop4:carry1",
             "sop4:carry2", "frob4:10", "frob4:11", "frob4:12", "frob4:21", "frob4:22", "frob4:30", "frob4:31", "frob4:32", "frob12:1", "frob12:2", "frob12:3", "frob12:6", "pow:chain-exponent",
             "finalexp:zero", "finalexp:nonunitary",
         ]),
@@ -92,7 +92,24 @@ fn coef(s: &mut Src) -> F {
 /// element of F_q^12 supported on the exponents in `support`
 fn elem_on(s: &mut Src, support: &[usize], info: &mut Info) -> P12 {
     let mut c = [<F as Fld>::zero(); 12];
-    match s.weighted(&[6, 3, 4, 2, 1]) {
+    match s.weighted(&[6, 3, 4, 2, 1, 3]) {
+        5 => {
+            // a small constant (1, -1, 2, 0, small) at w^0 plus one or two other coefficients: the shape of line
+            // functions and of "is this one?" fast paths
+            info.class("elem:const-plus-sparse");
+            c[0] = match s.choose(5) {
+                0 | 1 => <F as Fld>::one(),
+                2 => <F as Fld>::one().neg(),
+                3 => F::from(2u64),
+                _ => F::from(s.choose(9) as u64),
+            };
+            for _ in 0..(1 + s.choose(2)) {
+                let i = support[s.choose(support.len())];
+                if i != 0 {
+                    c[i] = coef(s);
+                }
+            }
+        }
         0 => {
             info.class("elem:uniform");
             for &i in support {
